@@ -145,11 +145,9 @@ def _i128max_cmp(node):
 
 def r3_parser(run, F):
     b = F.body("alpha::parser::parse_primary_expression")
-    m = None
-    for mm in hirq.matches(b["hir"]):
-        if hirq.local_name_of(mm["scrut"]) == "token" and hirq.n_alts(mm) > 8:
-            m = mm
-    run.require(m is not None, "match token not found in parse_primary_expression")
+    ms_ = hirq.matches_on_type(F.lib, b["hir"], "lexer::Token", 9)
+    run.require(len(ms_) >= 1, "the match over the current token was not found in parse_primary_expression")
+    m = max(ms_, key=hirq.n_alts)
     rows = []
     for a in m["arms"]:
         tk = hirq.pat_key(a["pat"]).split("::")[-1]
@@ -200,17 +198,23 @@ def r3_parser(run, F):
     run.ob("R3-LITERAL-SPLIT", "NakedDecimal arm order", len(nd) == 2 and nd[0][1] and not nd[1][1], F.where(b), "guarded arm must come first")
     # unary minus folding
     u = F.body("alpha::parser::parse_unary_expression")
-    mu = None
-    for mm in hirq.matches(u["hir"]):
-        if hirq.local_name_of(mm["scrut"]) == "expr":
-            mu = mm
-    run.require(mu is not None, "match expr not found in parse_unary_expression")
+    mus = hirq.matches_on_type(F.lib, u["hir"], "common::Expression", 2)
+    run.require(len(mus) >= 1, "the match over the parsed operand was not found in parse_unary_expression")
+    mu = mus[0]
+    uenv = hirq.full_env(u)
+
+    def is_value_of(e, arm):
+        """e is the binding of the literal's `value` field in this arm's pattern (whatever it is called)"""
+        e = hirq.unwrap_trivial(e)
+        fp, _ = hirq.field_pats(hirq.pat_alts(arm["pat"])[0])
+        vb = [lid for _, lid, _ in hirq.pat_bindings(fp["value"])] if fp and "value" in fp else []
+        return e.get("k") == "Path" and e.get("lid") in vb
     fold = [a for a in mu["arms"] if hirq.pat_key(a["pat"]) == "Expression::SignedIntegerLiteral"]
     ok = False
     if len(fold) == 1 and "guard" in fold[0]:
         g = hirq.unwrap_trivial(fold[0]["guard"])
-        if g.get("k") == "Binary" and g.get("op") == "Gt" and hirq.local_name_of(g["lhs"]) == "value" and g["rhs"].get("v") == 0:
-            negs = [n for n in walk(fold[0]["body"]) if n.get("k") == "Unary" and n.get("op") == "Neg" and hirq.local_name_of(n["e"]) == "value"]
+        if g.get("k") == "Binary" and g.get("op") == "Gt" and is_value_of(g["lhs"], fold[0]) and g["rhs"].get("v") == 0:
+            negs = [n for n in walk(fold[0]["body"]) if n.get("k") == "Unary" and n.get("op") == "Neg" and is_value_of(n["e"], fold[0])]
             cons = [hirq.short(p) for p, _ in hirq.constructs(fold[0]["body"]) if hirq.short(p).startswith("Expression::")]
             ok = len(negs) == 1 and cons == ["Expression::SignedIntegerLiteral"]
     run.ob("R3-MINUS-FOLDING", "SignedIntegerLiteral if value > 0", ok, F.where(u, mu),
@@ -220,7 +224,7 @@ def r3_parser(run, F):
     for a in mu["arms"]:
         if hirq.pat_key(a["pat"]) != "Expression::BitIntegerLiteral" or "guard" not in a:
             continue
-        eqs = [n for n in walk(a["guard"]) if n.get("k") == "Binary" and n.get("op") == "Eq" and hirq.local_name_of(n["lhs"]) == "value"]
+        eqs = [n for n in walk(a["guard"]) if n.get("k") == "Binary" and n.get("op") == "Eq" and is_value_of(n["lhs"], a)]
         is_2_127 = False
         for n in eqs:
             r = hirq.unwrap_trivial(n["rhs"])
@@ -348,8 +352,9 @@ def r6_generator(run, F):
     sarm = hirq.arm_for(top[0], "Expression::SignedIntegerLiteral")
     run.require(sarm, "SignedIntegerLiteral arm not found in the generator")
     mm = None
+    genv = hirq.full_env(g)
     for m in hirq.matches(sarm[0]["body"]):
-        if hirq.local_name_of(m["scrut"]) == "value":
+        if hirq.canon_of(m["scrut"], genv) == "self.value":
             mm = m
     if mm is None:
         run.ob("R6-RANGES", "signed-literal arms", False, F.where(g, sarm[0]),
